@@ -468,6 +468,60 @@ func runC04(c *Ctx) {
 		}
 		coord.ResetLog()
 	}
+	runC04DirectRollback(c, coord)
+}
+
+// runC04DirectRollback: GlobalTransactionManager.Rollback (exported, and what WithGlobalTx calls) with its request
+// answered in every wire form: "a failed second phase always surfaces to the caller" — the answer Failed, or a
+// status that says the transaction is committed or could not be rolled back, is not a rollback that was done.
+func runC04DirectRollback(c *Ctx, coord *Coord) {
+	tm.InitTm(tm.TmConfig{CommitRetryCount: 1, RollbackRetryCount: 1, DefaultGlobalTransactionTimeout: 30 * time.Second})
+	for rc := 0; rc <= 1; rc++ {
+		for st := 0; st <= 15; st++ {
+			cid := fmt.Sprintf("c04-rb-%d-%d", rc, st)
+			if !c.Want(cid) {
+				continue
+			}
+			xid := coord.NewXid()
+			coord.Script = func(s *FakeSession, kind string, m message.RpcMessage) Action {
+				if b, ok := m.Body.(message.GlobalRollbackRequest); ok && b.Xid == xid {
+					head := failHead("wire form")
+					if rc == 1 {
+						head = okHead()
+					}
+					return Action{Body: message.GlobalRollbackResponse{AbstractGlobalEndResponse: message.AbstractGlobalEndResponse{AbstractTransactionResponse: head, GlobalStatus: message.GlobalStatus(st)}}}
+				}
+				return Action{}
+			}
+			ret := "nil"
+			p := safeCall(func() {
+				gtx := &tm.GlobalTransaction{TxName: cid, TxRole: tm.Launcher, Xid: xid}
+				if err := tm.GetGlobalTransactionManager().Rollback(context.Background(), gtx); err != nil {
+					ret = "error"
+				}
+			})
+			if p != "" {
+				ret = "crash"
+			}
+			coord.Script = nil
+			c.Out.Case(cid, "C04", fmt.Sprintf("rollback %d %d", rc, st), "ret="+ret)
+			class, detail := "", ""
+			committed := st == 2 || st == 3 || st == 8 || st == 9
+			failedStatus := st == 10 || st == 12 || st == 14
+			switch {
+			case ret == "crash":
+				class, detail = "crash", p
+			case ret == "nil" && (committed || failedStatus):
+				class, detail = "failed_rollback_reported_done", fmt.Sprintf("the rollback request was answered with global status %d and Rollback returned nil", st)
+			case ret == "nil" && rc == 0 && !(st == 4 || st == 5 || st == 6 || st == 7 || st == 11 || st == 13):
+				class, detail = "failed_rollback_reported_done", fmt.Sprintf("the rollback request was answered Failed (status %d) and Rollback returned nil", st)
+			}
+			c.Out.Oracle(cid, class == "", class, detail+" | ret="+ret)
+			c.Out.Tag(cid, "nontrivial=1")
+			c.Out.Count("direct-rollback")
+		}
+	}
+	coord.ResetLog()
 }
 
 func min(a, b int) int {
